@@ -73,7 +73,6 @@ Proof. exact @subs_eval. Qed.
 (* 4. the expressions the deep parser builds from well-formed trees are index-consistent, so 1 applies to them *)
 Theorem C11_parsed_expressions_qualify :
   forall (D : Type) (C : carrier D) (tb : optable) (R : D -> D -> Prop),
-  wf_table tb = true ->
   (forall a, R a a) -> (forall a b, R a b -> R b a) -> (forall a b c, R a b -> R b c -> R a c) ->
   (forall k a a' b b', R a a' -> R b b' -> R (binf C k a b) (binf C k a' b')) ->
   (forall k a a', R a a' -> R (unf C k a) (unf C k a')) ->
@@ -83,9 +82,9 @@ Theorem C11_parsed_expressions_qualify :
     dparse C tb (S (length (flatten c))) None (flatten c) (find_parsed_vars (flatten c)) [] [] [] = Ok (e, []) /\
     dindexed (DeepParse.flagged tb) (dvars e) e.
 Proof.
-  intros D C tb R Hwt Hr Hs Ht Hb Hu Ha c Hwf.
+  intros D C tb R Hr Hs Ht Hb Hu Ha c Hwf.
   set (vars := find_parsed_vars (flatten c)).
-  destruct (deep_parse_is_reference_wf C tb Hwt R Hr Hs Ht Hb Hu Ha c (map (fun _ => dflt C) vars) Hwf ltac:(apply map_length))
+  destruct (deep_parse_is_reference_wf C tb R Hr Hs Ht Hb Hu Ha c (map (fun _ => dflt C) vars) Hwf ltac:(apply map_length))
     as (e & v & H1 & H2 & _ & _ & H5).
   exists e. split; [exact H1|]. fold vars in H2, H5. rewrite H2. split; [|exact H2].
   revert H5. apply dwf_weaken; [intros i x H; exact H|]. intros w [Hl _]. unfold short_list. rewrite map_length in Hl. exact Hl.
